@@ -816,10 +816,19 @@ fn api_state_family(rep: &mut Report) {
     // (c) wide documents: tables created through the API carry no position of their own and are printed relative to
     // their neighbours; with more than 20 of them any instability in that ordering shows
     for n in [0usize, 1, 2, 3, 19, 20, 21, 22, 23, 33, 48] {
-        for parsed_prefix in [false, true] {
+        for parsed_prefix in [0usize, 1, 2] {
+            // prefix 2: headers out of TREE order (`[b.x]` before `[b]`), so the positions met while walking the tree are
+            // not already sorted when the API-made tables (which all tie) are appended
+            let prefix_text = ["", "[zz]\nq = 0\n[aa]\nq = 1\n", "[b.x]\nq = 0\n[a]\nq = 1\n[b]\nq = 2\n[c.y.z]\nq = 3\n[c]\nq = 4\n"][parsed_prefix];
+            let q = |i: i64| ("q".to_string(), T::Leaf(Leaf::I(i)));
+            let prefix_want: Vec<(String, T)> = match parsed_prefix {
+                0 => vec![],
+                1 => vec![("zz".into(), T::Tab(vec![q(0)])), ("aa".into(), T::Tab(vec![q(1)]))],
+                _ => vec![("b".into(), T::Tab(vec![q(2), ("x".into(), T::Tab(vec![q(0)]))])), ("a".into(), T::Tab(vec![q(1)])), ("c".into(), T::Tab(vec![q(4), ("y".into(), T::Tab(vec![("z".into(), T::Tab(vec![q(3)]))]))]))],
+            };
             // n standard tables
-            let mut doc: DocumentMut = if parsed_prefix { "[zz]\nq = 0\n[aa]\nq = 1\n".parse().unwrap() } else { DocumentMut::new() };
-            let mut want: Vec<(String, T)> = if parsed_prefix { vec![("zz".into(), T::Tab(vec![("q".into(), T::Leaf(Leaf::I(0)))])), ("aa".into(), T::Tab(vec![("q".into(), T::Leaf(Leaf::I(1)))]))] } else { vec![] };
+            let mut doc: DocumentMut = prefix_text.parse().unwrap();
+            let mut want: Vec<(String, T)> = prefix_want.clone();
             for i in 0..n {
                 let mut t = Table::new();
                 t.insert("x", toml_edit::value(i as i64));
@@ -832,10 +841,10 @@ fn api_state_family(rep: &mut Report) {
                 doc.insert(&k, Item::Table(t));
                 want.push((k, T::Tab(vec![("x".into(), T::Leaf(Leaf::I(i as i64))), ("s".into(), T::Tab(vec![("y".into(), T::Leaf(Leaf::I(i as i64)))]))])));
             }
-            judge(&mut acc, format!("{} tables inserted through the API{}", n, if parsed_prefix { " after two parsed headers in reverse order" } else { "" }), &doc, T::Tab(want));
+            judge(&mut acc, format!("{} tables inserted through the API after the parsed prefix {:?}", n, prefix_text), &doc, T::Tab(want));
             // one array of tables with n elements, each with a sub-table and a nested array of tables
             if n > 0 {
-                let mut doc: DocumentMut = if parsed_prefix { "[zz]\nq = 0\n[aa]\nq = 1\n".parse().unwrap() } else { DocumentMut::new() };
+                let mut doc: DocumentMut = prefix_text.parse().unwrap();
                 let mut a = ArrayOfTables::new();
                 let mut els = Vec::new();
                 for i in 0..n {
@@ -853,9 +862,9 @@ fn api_state_family(rep: &mut Report) {
                     els.push(vec![("x".to_string(), T::Leaf(Leaf::I(i as i64))), ("s".to_string(), T::Tab(vec![("y".into(), T::Leaf(Leaf::I(i as i64)))])), ("n".to_string(), T::Aot(vec![vec![("z".to_string(), T::Leaf(Leaf::I(i as i64)))]]))]);
                 }
                 doc.insert("item", Item::ArrayOfTables(a));
-                let mut want: Vec<(String, T)> = if parsed_prefix { vec![("zz".into(), T::Tab(vec![("q".into(), T::Leaf(Leaf::I(0)))])), ("aa".into(), T::Tab(vec![("q".into(), T::Leaf(Leaf::I(1)))]))] } else { vec![] };
+                let mut want: Vec<(String, T)> = prefix_want.clone();
                 want.push(("item".into(), T::Aot(els)));
-                judge(&mut acc, format!("an array of {} tables (each with a sub-table and a nested array of tables) inserted through the API{}", n, if parsed_prefix { " after two parsed headers in reverse order" } else { "" }), &doc, T::Tab(want));
+                judge(&mut acc, format!("an array of {} tables (each with a sub-table and a nested array of tables) inserted through the API after the parsed prefix {:?}", n, prefix_text), &doc, T::Tab(want));
             }
         }
     }
